@@ -121,7 +121,12 @@ class Container(typing.Generic[Symbol]):
                 Args:
                     feature: Features to be to extracted and registered.
                 """
-                for field in dsl.Column.dissect(*feature):
+                for field in dsl.Element.dissect(*feature):
+                    origin = field.origin
+                    if isinstance(origin, dsl.Reference):  # attribute referenced elements to their base table
+                        if not isinstance(origin.instance, dsl.Table):
+                            continue
+                        field = dsl.Column(origin.instance, field.name)
                     self[field.origin].fields.add(field)
 
             def filter(self, expression: 'dsl.Predicate') -> None:
